@@ -4,7 +4,7 @@
    collapse) are compiled and executed on every generated expression, under every scoping, and compared with this
    denotation. MapReduce and the debug operators are not modelled; stacking is covered under C12. *)
 Require Import List Bool ZArith.
-From FV Require Import Lib.Sym Model.C01 Model.C01Compile Model.C03 Proofs.C03 Model.C03Graph Proofs.C03GraphEval Proofs.C03GraphWf Proofs.C03GraphCompile Proofs.C03GraphPers Proofs.C03GraphCommit.
+From FV Require Import Lib.Sym Model.C01 Model.C01Compile Model.C03 Proofs.C03 Model.C03Graph Proofs.C03GraphEval Proofs.C03GraphWf Proofs.C03GraphCompile Proofs.C03GraphPers Proofs.C03GraphCommit Proofs.C03GraphApply.
 Import ListNotations.
 
 (* any nesting / explicit scoping of the same operator sequence denotes the same train and apply chains *)
@@ -74,6 +74,28 @@ Theorem C03_pipeline_commits : forall e a t sl visit,
 Proof. exact pipeline_commits. Qed.
 Print Assumptions C03_pipeline_commits.
 
+(* the lifecycle round trip (C03 + C04): the apply segment of the expression - the apply-path worker of every operator, in
+   the group it shares with the training graph - evaluated with the accessor that holds the list the training run committed,
+   bound to the groups by position, gives the apply output the expression denotes, for every expression *)
+Theorem C03_apply_reloads : forall e a t sl,
+  let s := den e (source a t sl) in
+  let l := combine (pers_gids e (gsource a t sl)) (persisted s) in
+  let ga := build_a e (asource a) in
+  value (geval (Some l) (anodes ga)) (apa ga) = xa s.
+Proof. exact apply_reloads. Qed.
+Print Assumptions C03_apply_reloads.
+
+(* ... and through the compiler (C01): for every expression and every visiting order the apply segment compiles with that
+   accessor (loaders keyed by group, no dumper, no committer) and the table delivers the same value at the apply tail *)
+Theorem C03_apply_compiles : forall e a t sl visit,
+  let s := den e (source a t sl) in
+  let l := combine (pers_gids e (gsource a t sl)) (persisted s) in
+  let ga := build_a e (asource a) in
+  NoDup visit -> (forall i, In i visit -> i < List.length (anodes ga)) -> List.length visit = List.length (anodes ga) ->
+  exists tb, bind (compile (Some l) (anodes ga) visit) canon = Some tb /\ delivered_with (Some l) tb (anodes ga) (apa ga) (xa s).
+Proof. exact apply_compiles. Qed.
+Print Assumptions C03_apply_compiles.
+
 Example C03_graph_witness :
   let a := OpSpec (Some (Actor 5 0 true)) TSame None in
   let b := OpSpec (Some (Actor 6 1 true)) TNo (Some (Actor 7 0 false)) in
@@ -94,3 +116,14 @@ Example C03_commits_witness :
   let b := OpSpec (Some (Actor 6 1 true)) TNo (Some (Actor 7 0 false)) in
   List.length (pers_gids (ESeq (EOp a) (EOp b)) (gsource 0 1 2)) = 2.
 Proof. vm_compute. reflexivity. Qed.
+
+(* the loaded states matter: without the accessor the same apply segment evaluates to something else *)
+Example C03_apply_witness :
+  let a := OpSpec (Some (Actor 5 0 true)) TSame None in
+  let b := OpSpec (Some (Actor 6 1 true)) TNo (Some (Actor 7 0 false)) in
+  let e := ESeq (EOp a) (EOp b) in
+  let ga := build_a e (asource 0) in
+  List.length (anodes ga) = 3
+  /\ term_eqb (value (geval None (anodes ga)) (apa ga)) (xa (den e (source 0 1 2))) = false
+  /\ compile_ok (Some (combine (pers_gids e (gsource 0 1 2)) (persisted (den e (source 0 1 2))))) (anodes ga) [2; 0; 1] = true.
+Proof. vm_compute. repeat split; reflexivity. Qed.
